@@ -67,7 +67,7 @@ def run(chk):
     chk.proofs(extra_targets=["Model/ReachRun.vo"])
     binp = vf.build_harness("c05")
     thorough = chk.tier != "quick"
-    n = 330 if not thorough else 12000
+    n = 330 if not thorough else 8000
     extra = ["--thorough"] if thorough else []
     if not chk.replay:
         for f in sorted(glob.glob(os.path.join(vf.ROOT, "corpus", "C05", "*.json"))):
